@@ -310,7 +310,7 @@ impl Report {
         let mut unknown: Vec<(String, u64, Violation)> = vec![];
         let mut known_hits: BTreeMap<String, (KnownFinding, u64, Violation)> = BTreeMap::new();
         for (sig, (n, v)) in &self.violations {
-            if let Some(k) = known.iter().find(|k| sig.starts_with(&k.sig_prefix)) {
+            if let Some(k) = known.iter().find(|k| glob_prefix(&k.sig_prefix, sig)) {
                 let e = known_hits
                     .entry(k.finding.clone())
                     .or_insert_with(|| (k.clone(), 0, v.clone()));
@@ -413,6 +413,28 @@ impl Report {
         }
         1
     }
+}
+
+/// `pat` matches a prefix of `s`; `*` in `pat` matches any run of characters.
+pub fn glob_prefix(pat: &str, s: &str) -> bool {
+    let parts: Vec<&str> = pat.split('*').collect();
+    let mut pos = 0usize;
+    for (i, part) in parts.iter().enumerate() {
+        if i == 0 {
+            if !s.starts_with(part) {
+                return false;
+            }
+            pos = part.len();
+        } else if part.is_empty() {
+            continue;
+        } else {
+            match s[pos..].find(part) {
+                Some(j) => pos += j + part.len(),
+                None => return false,
+            }
+        }
+    }
+    true
 }
 
 fn summary_line(cov: &Value) -> String {
